@@ -8,3 +8,16 @@ def is_leaf(element):
     if not name or name == 'br':
         return True
     return False
+
+
+def split_lines(content):
+    """Split a document into lines at LF, CR LF and CR only.
+
+    ``str.splitlines`` also splits at U+2028, U+2029, U+0085, FF, VT and
+    FS/GS/RS, which are ordinary text characters in SRT, WebVTT and MicroDVD.
+    """
+    import re
+    lines = re.split('\r\n|\r|\n', content)
+    if lines and lines[-1] == '':
+        lines.pop()
+    return lines
